@@ -351,6 +351,8 @@ class Reset:
         f = self.in_scope(entry_u)
         bad = []
         inspected = []
+        direct = []
+        self.direct_stale_reads = direct
         exempt = set(exempt)
 
         def obligations(n, W, line):
@@ -371,12 +373,35 @@ class Reset:
                     bad.append((line, show(n)[:60], m, sorted(gs)))
                     break
 
+        state = {"after_reader": False}
+
         def scan_expr(e, W, line):
+            # direct reads by the entry method itself: before anything has
+            # (re)initialised the member they read the state a previous call
+            # left behind
+            skip = set()
+            for n in walk(e):
+                if n.get("k") in ("bin", "op") and n.get("op") == "=" \
+                        and len(n.get("a", ())) == 2 \
+                        and n["a"][0].get("k") == "mem":
+                    skip.add(id(n["a"][0]))
+                if n.get("k") == "mcall" and n.get("n") in RESET_METHODS \
+                        and (n.get("o") or {}).get("k") == "mem":
+                    skip.add(id(n["o"]))
+            for n in walk(e):
+                if n.get("k") == "mem" and id(n) not in skip:
+                    m = self.member(n)
+                    if m and m not in W and m not in exempt \
+                            and not state["after_reader"]:
+                        direct.append((n.get("l") or line, m))
             # innermost calls first (arguments are evaluated before the call)
             for n in walk(e):
                 if n.get("k") in ("call", "mcall", "ctor", "op") \
                         and n.get("u"):
+                    before = len(inspected)
                     obligations(n, W, n.get("l") or line)
+                    if len(inspected) > before:
+                        state["after_reader"] = True
 
         def run(s, W):
             if s is None:
